@@ -15,7 +15,7 @@ import (
 func init() {
 	ev.Register(&ev.Spec{
 		ID: "C14", Level: "exploration",
-		Rule:    "request A (read, write, getattr, 3-component walk parked at component 1/2/3, create, unlinkat, renameat parked in RenameAt and in Renamed, xattrwalk, clunk parked in Close) is parked inside the backend together with an unrelated request B; every order of {send Tflush(A), release A, release B, other traffic} (24 scripts per A kind), plus two flushes of one tag and flush chains; arrival of every reply and enter/exit of every backend call are stamped on one logical clock: an Rflush for A must be later than the exit of every call made on A's behalf and no such call may begin after it; flushes of idle, answered and own tags must be answered while B is still parked; A gets exactly one reply. Non-trivial: the flush was sent while A was parked; distinct by (A kind, script).",
+		Rule:    "request A (read, write, getattr, 3-component walk parked at component 1/2/3, create, unlinkat, renameat parked in RenameAt and in Renamed, xattrwalk, clunk parked in Close) is parked inside the backend together with an unrelated request B; every order of {send Tflush(A), release A, release B, other traffic} (24 scripts per A kind), plus two flushes of one tag and flush chains, and scripts in which a frame the server rejects on arrival (a type it does not serve) is sent under A's own tag while A executes - answered Rlerror, A stays in flight; arrival of every reply and enter/exit of every backend call are stamped on one logical clock: an Rflush for A must be later than the exit of every call made on A's behalf and no such call may begin after it; flushes of idle, answered and own tags must be answered while B is still parked; A gets exactly one reply. Non-trivial: the flush was sent while A was parked; distinct by (A kind, script).",
 		Assume:  []string{"calls are attributed to A by construction (A alone touches its names)", "reply stamps are taken when the peer parsed the frame, i.e. never earlier than the send"},
 		Shards:  shards(8, 16),
 		Timeout: timeout(8*time.Minute, 45*time.Minute),
@@ -117,6 +117,18 @@ func runC14(c *ev.Ctx) {
 			}
 		}
 	}
+	// a rejected frame under A's tag before or after the flush
+	for ki, k := range kinds {
+		for si, sc := range [][]int{{5, 0, 3, 1, 2}, {0, 5, 3, 1, 2}, {5, 5, 0, 2, 0, 1}, {0, 3, 5, 0, 1, 2}} {
+			idx++
+			if !c.Mine(idx) || c.Quick() && (ki+si)%2 == 1 {
+				continue
+			}
+			c14TagA = []uint16{300, 0xFFFF, 0}[idx%3]
+			c14Run(c, k, "one", sc)
+			c14TagA = 300
+		}
+	}
 	if c.Thorough() {
 		// PRNG scripts of 8-12 events: several flushes of A, chains, traffic, both releases
 		r := c.Rand("c14scripts")
@@ -127,7 +139,7 @@ func runC14(c *ev.Ctx) {
 				n := 8 + r.Intn(9)
 				var sc []int
 				for j := 0; j < n; j++ {
-					sc = append(sc, []int{0, 0, 3, 4, 3, 0}[r.Intn(6)])
+					sc = append(sc, []int{0, 0, 3, 4, 3, 0, 5}[r.Intn(7)])
 				}
 				sc[r.Intn(n)] = 1
 				sc[r.Intn(n)] = 2
@@ -150,7 +162,7 @@ func runC14(c *ev.Ctx) {
 	c14BackToBack(c)
 }
 
-var c14ev = []string{"F", "RA", "RB", "T", "C"}
+var c14ev = []string{"F", "RA", "RB", "T", "C", "X"}
 
 // c14TagA is the tag of the flushed request in c14Run.
 var c14TagA uint16 = 300
@@ -208,7 +220,7 @@ func c14Run(c *ev.Ctx, k c14kind, variant string, sc []int) {
 		expect[tagB] = true
 	}
 	flushA := []uint16{} // tags of flushes naming A
-	nF, nT := 0, 0
+	nF, nT, nX := 0, 0, 0
 	lastFlush := uint16(0)
 	for _, e := range sc {
 		switch e {
@@ -223,6 +235,23 @@ func c14Run(c *ev.Ctx, k c14kind, variant string, sc []int) {
 			expect[ft] = true
 			lastFlush = ft
 			quiesce.WaitUntil(func() bool { return p.HasReplyFrom(ft, from) != nil }, 30*time.Second)
+		case 5: // X: a frame the server rejects on arrival (a type it does not
+			// serve), sent under A's tag while A is executing. It is answered
+			// Rlerror under that tag; A stays what it was: a request in flight.
+			fr := wire.Frame(54, tagA, []byte{1, 2, 3})
+			p.Expect(fr)
+			p.SendRaw(fr)
+			nX++
+			want := nX
+			quiesce.WaitUntil(func() bool {
+				n := 0
+				for _, r := range p.All()[from:] {
+					if r.Msg.Tag == tagA {
+						n++
+					}
+				}
+				return n >= want
+			}, 30*time.Second)
 		case 0: // F
 			flushSentWhileParked = flushSentWhileParked || !released
 			tagF := uint16(1000 + nF) // tag ranges of F, C and T never meet, however long the script
@@ -277,7 +306,7 @@ func c14Run(c *ev.Ctx, k c14kind, variant string, sc []int) {
 		replies[r.Msg.Tag] = append(replies[r.Msg.Tag], r)
 	}
 	det := map[string]any{"A": k.name, "script": script, "variant": variant}
-	if n := len(replies[tagA]); n != 1 {
+	if n := len(replies[tagA]) - nX; n != 1 {
 		det["replies_for_A"] = n
 		c.Violation("C14:flushed-request-reply-missing-or-duplicated:"+k.name, det)
 	}
